@@ -97,6 +97,20 @@ def drain (b : ABL) (s : State) (order aborts : List Nat) : Nat → ABL × State
       let r2 := drain b' r.1 [] [] fuel
       (r2.1, r2.2.1, r.2 ++ r2.2.2)
 
+/-- `Swarm.race` (the queued report of dial `k` is processed by the pool before the closes/aborts
+commanded by `Pool::disconnect(dp)` come back; the abort of the already finished pending dial is a
+no-op); oracles that are not permutations of the affected connections are replaced by table order -/
+def raceAny (s : State) (k p : Nat) (deny : Bool) (dp : Nat) (order aborts : List Nat) : State × List Ev :=
+  match race s k p deny dp order aborts with
+  | some r => r
+  | none =>
+    let o := (s.est.filter (·.peer == dp)).map (·.id)
+    let a := ((s.pendOut.filter (·.peer == some dp)).map (·.id)).filter
+      (fun c => some c != (findPendOut s.pendOut k).map (·.id))
+    ((abortMany (closeMany (resolveDial s k p deny).1 o).1 a).1,
+     (resolveDial s k p deny).2 ++ (closeMany (resolveDial s k p deny).1 o).2 ++
+       (abortMany (closeMany (resolveDial s k p deny).1 o).1 a).2)
+
 /-- the peer argument of the op's decision point -/
 def ctxOf (sw : State) : Op → Option Nat
   | .dial _ _ p0 addrs _ _ _ _ => (dialPeer sw p0 addrs).getD none
@@ -137,6 +151,11 @@ inductive COp where
   | sw (op : Op)
   | deny (p : Nat) (order aborts : List Nat)
   | permit (p : Nat)
+  /-- the list change races with a finished dial: the task of transport dial `k` has authenticated
+  peer `p` and queued its `ConnectionEstablished` report (the Swarm was polled once), THEN
+  `block_peer(q)` / `disallow_peer(q)` is called, then the Swarm is polled to quiescence.
+  `pd` = the probe denies at the established-time decision point. -/
+  | raceDeny (k p : Nat) (pd : Bool) (q : Nat) (order aborts : List Nat)
   deriving Repr, Inhabited
 
 /-- output of a step: Swarm result, API return value, waker woken, events -/
@@ -161,6 +180,15 @@ def step (cs : CS) : COp → CS × Out
   | .permit p =>
     let a := permitPeer cs.b p
     ({ sw := cs.sw, b := (poll a.1).1 }, { ret := some a.2.1, woken := a.2.2 })
+  | .raceDeny k p pd q order aborts =>
+    -- the API call comes first; `handle_established_outbound_connection` for the queued report
+    -- runs afterwards and sees the NEW list
+    let a := denyPeer cs.b q
+    let ld := a.1.enforce p
+    let r := if a.2.1 then raceAny cs.sw k p (pd || ld) q order aborts else resolveDial cs.sw k p (pd || ld)
+    -- poll: pops the queued peer (if any), then finds the queue empty and stores the waker
+    ({ sw := r.1, b := (poll (poll a.1).1).1 },
+     { ret := some a.2.1, woken := a.2.2, evs := if ld then r.2.filter (fun e => !isListDecision e) else r.2 })
 
 /-! ## The executable Spec -/
 
